@@ -32,6 +32,19 @@ enum Ans {
     Sel(Vec<String>),
 }
 
+impl Ans {
+    /// coarse class of an answer, for the outcome histogram (vacuity guard: many different answers
+    /// must be observed, otherwise nothing in the histories interacted)
+    fn class(&self) -> String {
+        match self {
+            Ans::Net(v) => v.short(),
+            Ans::Csp(c) => format!("csp{}", c.as_ref().map(|s| s.len()).unwrap_or(0)),
+            Ans::Cos(h, p, e, b, g) => format!("cos:h{}p{}e{}s{}{}", h.len(), p.len(), e.len(), b.len(), if *g { "G" } else { "" }),
+            Ans::Sel(v) => format!("sel{}", v.len()),
+        }
+    }
+}
+
 fn cos(r: UrlSpecificResources) -> Ans {
     let mut blocks: Vec<String> = r.injected_script.split("try {\n").map(|s| s.to_string()).collect();
     blocks.sort();
@@ -166,6 +179,7 @@ fn s1_run(s: &S1, seq: &[usize], l: &mut Local) -> Option<(usize, String, String
             let got = catch(|| s1_query(&e, &o));
             let exp = s.expected[mask as usize][oi].as_ref().unwrap();
             l.compared += 1;
+            l.hist(&format!("s1:tags{}:{:?}:{}", mask, o, exp.class()));
             match got {
                 Ok(g) if &g == exp => {}
                 Ok(g) => return Some((step, format!("{:?}", exp), format!("{:?}", g))),
@@ -344,6 +358,7 @@ fn s2_run(s: &S2, res: &ResourceStorage, seq: &[usize], l: &mut Local) -> Option
             let got = catch(|| s2_query(&b, res, &o));
             let exp = s.expected.get(&key).and_then(|v| v[oi].as_ref()).expect("state precomputed");
             l.compared += 1;
+            l.hist(&format!("s{}:{:?}:{}", if s.optimize { 4 } else { 2 }, o, exp.class()));
             match got {
                 Ok(g) if &g == exp => {}
                 Ok(g) => return Some((step, format!("{:?}", exp), format!("{:?}", g))),
@@ -455,6 +470,7 @@ fn s3_run(s: &S3, seq: &[usize], l: &mut Local) -> Option<(usize, String, String
             let got = catch(|| s3_query(&e, &o));
             let exp = s.expected[oi].as_ref().unwrap();
             l.compared += 1;
+            l.hist(&format!("s3:{:?}:{}", o, exp.class()));
             match got {
                 Ok(g) if &g == exp => {}
                 Ok(g) => return Some((step, format!("{:?}", exp), format!("{:?}", g))),
